@@ -27,7 +27,7 @@ func run(c *vf.Ctx) {
 	c.Rule("SID: sub-authority count 0..15 x authority {0,1,5,2^32-1 | 2^32,2^48-1} (thorough: all 2^k,2^k±1 < 2^48) x one probe value from {0, 2^k, 2^k±1 (k<32), 2^32-1, 2^32-2} placed at every index over 2 backgrounds of pairwise distinct values, " +
 		"each as exact-length buffer and with 1/4/13 trailing bytes; revisions 0,2,255 with the same bodies. " +
 		"DN: every sequence of 0..4 (thorough 0..6) RDNs over a 10-RDN alphabet (values holding ',' '=' '\\'), each written in both spellings AD may emit for '=' (\\= and \\3D), plus realistic DNs; the RFC 4514 raw-'=' spelling is measured but not demanded. " +
-		"Session lookups (GetDomain, GetAllDomains, FindObjectSIDByRID) against an in-process LDAP directory: 2 (thorough 4) domains x 5 directory variants x every way of naming the domain x every RID of ldap_attributes.LocalRIDs, 8 domain RIDs and 6 RIDs nobody has. " +
+		"Session lookups (GetDomain, GetAllDomains, FindObjectSIDByRID) against an in-process LDAP directory: 5 (thorough 7) domains (incl. binary SIDs ending in white-space bytes) x 5 directory variants x every way of naming the domain x every RID of ldap_attributes.LocalRIDs, 12 domain RIDs and 6 RIDs nobody has. " +
 		"distinct = distinct input byte strings reaching the comparison")
 	c.Assume("fmt/strconv decimal printing is correct; a buffer with trailing bytes may be decoded or rejected (\"\") — the property is silent; authorities >= 2^32 may print decimal (property text) or 0x%012X (MS-DTYP 2.4.2.1)")
 	sids(c)
